@@ -51,13 +51,15 @@ def run(ctx):
     from ..rules import codecrepr
     codecrepr.writer(ctx)
     # ---- (1)
-    wnames = {f.name for f in P.funcs_in(PT) if f.name.startswith("write_") or f.name.startswith("parquet_write_")}
+    wnames = {"write_statistics", "write_logical_type", "write_schema_element", "write_column_metadata",
+              "write_column_chunk", "write_row_group", "parquet_write_file_metadata", "write_key_value",
+              "write_sorting_column", "write_page_encoding_stats"} & {f.name for f in P.funcs_in(PT)}
     rows = 0
     for wn, sname in (("write_statistics", "Statistics"), ("write_logical_type", "LogicalType"),
                       ("write_schema_element", "SchemaElement"), ("write_column_metadata", "ColumnMetaData"),
                       ("write_column_chunk", "ColumnChunk"), ("write_row_group", "RowGroup"),
                       ("parquet_write_file_metadata", "FileMetaData")):
-        f = P.fn(wn, PT)
+        f = P.inlined(P.fn(wn, PT), 3, wnames)
         W, probs = tt.extract_writer(P, f, wnames)
         if W is None:
             raise AnalysisBroken("no struct in writer " + wn)
@@ -68,7 +70,8 @@ def run(ctx):
         c.compare(sname, W, None, wn, None)
         rows += c.rows
     fin = P.fn("carquet_page_writer_finalize", PW)
-    W, probs = tt.extract_writer(P, fin, set())
+    fin_view = P.inlined(fin, 3)
+    W, probs = tt.extract_writer(P, fin_view, set())
     if W is None:
         raise AnalysisBroken("page header struct not found in carquet_page_writer_finalize")
     for msg, node in probs:
@@ -134,7 +137,7 @@ def run(ctx):
         for fl in W.fields.get(fid, []):
             call = fl.node
             # the value writer is the next thrift_write_i32 after the header
-            calls = [c_ for c_ in fin.body.walk() if c_.k == "CallExpr" and c_.callee]
+            calls = [c_ for c_ in fin_view.body.walk() if c_.k == "CallExpr" and c_.callee]
             i = calls.index(call)
             for c_ in calls[i + 1:i + 3]:
                 if c_.callee == "thrift_write_i32":
